@@ -34,6 +34,15 @@ HAND = [
      "eff": {"sh": "shared", "cx": "contextual", "ns": "non_shared", "df": "contextual", "ag": "contextual"},
      "made": {"sh": "probe.test/fx.NewA", "cx": "probe.test/fx.NewB", "ns": "probe.test/fx.NewC", "df": "probe.test/fx.NewD", "ag": "probe.test/fx.NewZ"},
      "params": ["host", "port", "addr", "url", "cnt", "e1", "e2", "e3", "cntAlias", "cntAlias2", "cntIn"], "fns": ["probe.test/fx.Fn"], "getters": ["GetSh", "GetDf"], "tags": ["t"]},
+    # a cold container whose first operations all read the environment
+    {"name": "env-cold", "env": {"VERIF_SET": "envvalue", "VERIF_NUM": "17", "VERIF_A": "a", "VERIF_B": "b"},
+     "doc": {"meta": {"imports": {"fx": "probe.test/fx"}},
+             "parameters": {"e1": '%env("VERIF_SET")%', "e2": '%envInt("VERIF_NUM")%', "e3": 'x-%env("VERIF_A")%-%env("VERIF_B")%', "e4": '%env("VERIF_A")%',
+                            "e5": '%env("VERIF_B")%', "e6": '%env("VERIF_UNSET_Q", "d")%', "e7": '%envInt("VERIF_UNSET_R", 5)%', "e8": '%e1%/%e4%/%e5%'},
+             "services": {"se": {"constructor": "fx.NewA", "arguments": ["%e1%", "%e2%", "%e3%", '%env("VERIF_A")%'], "scope": "non_shared"},
+                          "sf": {"constructor": "fx.NewB", "arguments": ["%e8%", '%envInt("VERIF_NUM")%'], "scope": "contextual"}}},
+     "eff": {"se": "non_shared", "sf": "contextual"}, "made": {"se": "probe.test/fx.NewA", "sf": "probe.test/fx.NewB"},
+     "params": ["e1", "e2", "e3", "e4", "e5", "e6", "e7", "e8"], "fns": [], "getters": [], "tags": [], "param_weight": 0.6},
     # services given by value (composite literals, evaluated at every construction), told apart by an injected field
     {"name": "values", "env": {},
      "doc": {"meta": {"imports": {"fx": "probe.test/fx"}},
@@ -111,7 +120,9 @@ def ops_for(entry, rng, nctx):
     gw = entry.get("getter_weight", 0)
     for _ in range(4):
         c = rng.random()
-        if gw and rng.random() < gw:
+        if entry.get("param_weight") and rng.random() < entry["param_weight"]:
+            ops.append({"op": "GetParam", "id": rng.choice(entry["params"])})
+        elif gw and rng.random() < gw:
             g = rng.choice(entry["getters"])
             ops.append(rng.choice([{"op": "Getter", "name": g}, {"op": "Getter", "name": g}, {"op": "GetterInContext", "name": g + "InContext", "ctx": rng.randrange(1, nctx + 1)}]))
         elif c < 0.3:
